@@ -57,7 +57,23 @@ ATOMS = [
     A("flex", "int {p}fl[];", [], last_only=True),
     A("kw", "int {k0}; char {k1};", [("{k0}", "sint"), ("{k1}", "sint")]),
 ]
-ATOM = {a.key: a for a in ATOMS}
+# atoms used only by the derive check (C08): both sides of the 12-parameter and 32-element limits, a 33-byte bit-field unit
+EXTRA_ATOMS = [
+    A("fnptr12", "int (*{p}f12)(int, int, int, int, int, int, int, int, int, int, int, int);", [("{p}f12", "agg")]),
+    A("fnptr13", "int (*{p}f13)(int, int, int, int, int, int, int, int, int, int, int, int, int);", [("{p}f13", "agg")]),
+    A("arr32", "int {p}a32[32];", [("{p}a32", "arr")]),
+    A("arr33", "int {p}a33[33];", [("{p}a33", "arr")]),
+    A("bf32B", "unsigned long long {p}w0:64; unsigned long long {p}w1:64; unsigned long long {p}w2:64; unsigned long long {p}w3:63;", []),
+    A("bf33B", "unsigned long long {p}v0:64; unsigned long long {p}v1:64; unsigned long long {p}v2:64; unsigned long long {p}v3:64; unsigned char {p}v4:1;", []),
+    A("nestplain", "struct {t}_NQ {p}nq;", [("{p}nq", "agg")], support="struct {t}_NQ {{ int a; short b; }};"),
+    A("nestfloat", "struct {t}_NF {p}nf;", [("{p}nf", "agg")], support="struct {t}_NF {{ int a; float f; }};"),
+    A("ptrarr", "int *{p}pa[4];", [("{p}pa", "arr")]),
+    # pointers to typedef'd function types and typedef'd function pointers, both sides of the 12-parameter limit
+    A("fntd2", "{t}_fn2 *{p}ft2;", [("{p}ft2", "agg")], support="typedef int {t}_fn2(int, char);"),
+    A("fntd13", "{t}_fn13 *{p}ft13;", [("{p}ft13", "agg")], support="typedef int {t}_fn13(int, int, int, int, int, int, int, int, int, int, int, int, int);"),
+    A("pfntd13", "{t}_pfn13 {p}pf13;", [("{p}pf13", "agg")], support="typedef int (*{t}_pfn13)(int, int, int, int, int, int, int, int, int, int, int, int, int);"),
+]
+ATOM = {a.key: a for a in ATOMS + EXTRA_ATOMS}
 
 # record attributes: (key, text before `struct`, attribute after `struct`, text after the declaration)
 RECORD_ATTRS = [
